@@ -1041,6 +1041,10 @@ def conc_stage(rep, work, name, systems, clients, runs, ops, keys, gated, race=F
                 if first != bad[0]:
                     f.writelines(lines)
         cur = nxt
+    if inconclusive and not witness:
+        # an exact (breadth-first) validation that does not finish is a defect of the machinery, not a pass
+        raise Infra("stage %s: %d histor%s could not be decided by the exact search (TLC error or timeout)" % (
+            name, inconclusive, "y" if inconclusive == 1 else "ies"))
     vr = TLCResult()
     vr.distinct, vr.generated = vstates, vtrans
     rep.add_tlc(name, vr)
